@@ -1,7 +1,7 @@
 (* C31: the decoder model (with the RFC Huffman decoder) on a whole block refines rfc_decode; closure through prop_C31. *)
 From Coq Require Import List ZArith Bool Lia ZifyBool ZifyNat.
 From Bfe Require Import lib.Val lib.Bytes gen.HpackTables model.Huffman model.Hpack run.RunC31
-  proofs.HuffmanProofs proofs.HpackProofs proofs.HpackRfcProofs proofs.HpackIncrProofs proofs.HpackLimProofs.
+  proofs.HuffmanProofs proofs.HpackProofs proofs.HpackRfcProofs proofs.HpackIncrProofs proofs.HpackLimProofs proofs.HpackEmitProofs.
 Import ListNotations.
 Open Scope Z_scope.
 
@@ -66,23 +66,27 @@ Qed.
 
 Theorem C31_central_lemma i : wf_C31 i = true -> kf_C31 i = 0 -> prop_C31 i (run_C31 i) = true.
 Proof.
-  unfold wf_C31, prop_C31, run_C31. intros Hwf _. destruct (decode_input i) as [[[mx M] chunks]|]; [|discriminate].
-  apply andb_true_iff in Hwf. destruct Hwf as [Hwf Hw]. apply andb_true_iff in Hwf. destruct Hwf as [Hmx HM].
+  unfold wf_C31, prop_C31, run_C31. intros Hwf _. destruct (decode_input i) as [[[[mx M] k] chunks]|]; [|discriminate].
+  apply andb_true_iff in Hwf. destruct Hwf as [Hwf Hk]. apply andb_true_iff in Hwf. destruct Hwf as [Hwf Hw].
+  apply andb_true_iff in Hwf. destruct Hwf as [Hmx HM].
   apply Z.leb_le in Hmx. apply Z.eqb_eq in HM. subst M.
-  pose proof (decoder_refines_rfc mx chunks Hmx Hw) as H. unfold observe. rewrite dec_run_lim0.
-  destruct (dec_run huff_decode_spec (new_decoder mx) chunks []) as [[d fs] st]. destruct H as [Hnp H].
-  assert (st =? ST_PANIC = false) as -> by (unfold ST_PANIC in *; lia).
-  rewrite val_fields_roundtrip.
+  pose proof (decoder_refines_rfc mx chunks Hmx Hw) as H. unfold observe.
+  rewrite <- dec_run_lim0 in H.
+  destruct (dec_run_lim huff_decode_spec 0 (new_decoder mx) chunks []) as [[d fs] st] eqn:Erun. destruct H as [Hnp H].
   destruct (rfc_decode mx (concat chunks)) as [[t want]|].
-  - destruct H as [-> [-> [Hr [Hm [Hs _]]]]]. rewrite fields_eqb_refl, Hs, Hr.
+  - destruct H as [-> [-> [Hr [Hm [Hs _]]]]].
+    rewrite (emit_independent huff_decode_spec 0 ltac:(lia) _ k _ _ _ Erun).
+    change (0 =? ST_PANIC) with false. cbv iota.
+    rewrite val_fields_roundtrip, fields_eqb_refl, Hs, Hr.
     change (tab_size (rev (ents (ddt d)))) with (tsum (rev (ents (ddt d)))). rewrite tsum_rev, rev_length.
     unfold vnat. rewrite !Z.eqb_refl. reflexivity.
-  - apply negb_true_iff. lia.
+  - rewrite orb_false_r in Hk. rewrite (run_e_all huff_decode_spec 0 chunks _ k [] ltac:(lia)), Erun.
+    assert (st =? ST_PANIC = false) as -> by (unfold ST_PANIC in *; lia).
+    rewrite val_fields_roundtrip. apply orb_true_iff. left. apply negb_true_iff. lia.
 Qed.
-Definition ex_input31 : val := VL [VZ 4096; VZ 0; VL [VB [32; 63]; VB [33; 130; 64]; VB []; VB [1; 120; 129]; VB [7; 190]]].
+Definition ex_input31 : val := VL [VZ 4096; VZ 0; VZ 2; VL [VB [32; 63]; VB [33; 130; 64]; VB []; VB [1; 120; 129]; VB [7; 190]]].
 Lemma ex_input31_ok : wf_C31 ex_input31 = true /\ agree_C31 ex_input31 (run_C31 ex_input31) = true
-  /\ run_C31 ex_input31 = VL [VL [VL [VB [58;109;101;116;104;111;100]; VB [71;69;84]; VZ 0]; VL [VB [120]; VB [48]; VZ 0];
-                                   VL [VB [120]; VB [48]; VZ 0]]; VZ 0; VZ 34; VZ 64; VZ 1].
+  /\ run_C31 ex_input31 = VL [VL [VL [VB [58;109;101;116;104;111;100]; VB [71;69;84]; VZ 0]; VL [VB [120]; VB [48]; VZ 0]]; VZ 0; VZ 34; VZ 64; VZ 1].
 Proof. vm_compute. repeat split; reflexivity. Qed.
 
 (* ---- the decoder model does not depend on which of two Huffman decoders it is given when they agree on byte
@@ -175,11 +179,13 @@ Proof.
 Qed.
 End Ext.
 
-Theorem run_C31_trie_eq i : wf_C31 i = true -> run_C31_trie i = run_C31 i.
+Theorem run_C31_trie_eq i : wf_C31 i = true ->
+  match decode_input i with Some (_, _, k, _) => k < 0 | None => True end -> run_C31_trie i = run_C31 i.
 Proof.
-  unfold wf_C31, run_C31_trie, run_C31. destruct (decode_input i) as [[[mx M] chunks]|]; [|discriminate].
-  intros H. apply andb_true_iff in H. destruct H as [H Hw]. apply andb_true_iff in H. destruct H as [_ HM].
-  apply Z.eqb_eq in HM. subst M. unfold observe. rewrite !dec_run_lim0.
+  unfold wf_C31, run_C31_trie, run_C31. destruct (decode_input i) as [[[[mx M] k] chunks]|]; [|discriminate].
+  intros H Hk. apply andb_true_iff in H. destruct H as [H _]. apply andb_true_iff in H. destruct H as [H Hw].
+  apply andb_true_iff in H. destruct H as [_ HM].
+  apply Z.eqb_eq in HM. subst M. unfold observe. rewrite !run_e_all by exact Hk. rewrite !dec_run_lim0.
   rewrite (dec_run_ext huff_decode huff_decode_spec huff_decode_eq_spec mx chunks Hw). reflexivity.
 Qed.
 Theorem decoder_refines_rfc_trie mx chunks : 0 <= mx -> forallb wf_bytes chunks = true ->
